@@ -175,6 +175,8 @@ def main():
         points = install_delays(spec["inject"]["seed"], spec["inject"]["max_ms"], spec["inject"]["prob"], spec["inject"].get("fixed"))
     log("submit", ids=ids, points=points)
     p = Parallel(f).tune(parallel=pool, max_tasks=max_tasks)
+    if spec.get("task_timeout"):
+        p.tune(task_timeout=spec["task_timeout"])  # seconds without any result before the run is given up
     p.add_callback(in_thread_cb, in_thread=True)
     if spec.get("parent_cb"):
         p.add_callback(parent_cb)
